@@ -150,3 +150,23 @@ decreasing_by
   all_goals omega
 
 end Gotree.C01
+
+/-- The values the executable codec prints and reads back exactly: a decidable check, evaluated by the
+    driver on every value of every case (every finite float64 is expected to pass; tag `godom`).  On this
+    domain `goCodec` is a lawful `FloatCodec` (`Gotree.Newick.goFloatCodec`, Lemmas/C01GoCodec.lean). -/
+def Gotree.Newick.goDom (x : Rat) : Bool :=
+  Gotree.Newick.goCodec.isFloat (Gotree.Newick.goCodec.fmt x) &&
+  Gotree.Newick.goCodec.parse (Gotree.Newick.goCodec.fmt x) == some x
+
+/-- The structural version of `goDom` (no reading back): the shortest-digit search for `|x|` ended on a
+    candidate `n · 10^p` that it CHECKED to round to `|x|`, with a decimal magnitude inside the window the
+    reader does not cut off.  Every finite float64 is expected to pass (driver tag `godom`);
+    `Gotree.Newick.goDomS_goDom` (Lemmas/C01GoRead.lean) proves that the executable codec then writes a
+    text that it reads back as `x` — the second and third codec law, for the codec the driver runs. -/
+def Gotree.Newick.goDomS (x : Rat) : Bool :=
+  x == 0 ||
+  (let a := if x < 0 then -x else x
+   let np := Gotree.Newick.shortest a
+   decide (0 < np.1) && decide (np.1 < 10 ^ 400) &&
+   decide (-330 ≤ (Gotree.Newick.numDecDigits np.1 : Int) + np.2) && decide ((Gotree.Newick.numDecDigits np.1 : Int) + np.2 ≤ 311) &&
+   Gotree.Newick.roundF64 (Gotree.Newick.scale10 ((np.1 : Nat) : Rat) np.2) == some a)
